@@ -1,0 +1,13 @@
+//go:build !verif
+
+package scheduler
+
+func verifNew(*Scheduler) {}
+
+func verifCaller(int, *Scheduler, *ScheduledJob, error) {}
+
+func verifLoop(int, *Scheduler, *ScheduledJob, error) {}
+
+func verifTick(*Scheduler, State, int) {}
+
+func verifWorker(int, <-chan *ScheduledJob, *bool, *ScheduledJob, error) {}
